@@ -162,6 +162,8 @@ def run(ctx):
             jobs.append(("graph", lay, r))
     for cyc in CYCLES:
         jobs.append(("struct", [[cyc]], rng.fork("cyc")))
+    for lay in c03.link_corpus():
+        jobs.append(("graph", lay, rng.fork("link")))
 
     def one(i):
         kind, payload, r = jobs[i]
